@@ -8,7 +8,8 @@ CONSTANTS
   DoorAlias <- AliasOne
   ResetAt = 4
   InitVals = {0, 13}
+  PushSeqs <- MCPush
   Mode = "lfu"
   MaxOps = 5
-INVARIANTS TypeOK EstLower EstUpper
+INVARIANTS TypeOK EstBounds
 PROPERTIES Monotone Saturate ResetHalves AutoResetHalves ClearZeroes
